@@ -276,6 +276,16 @@ def gen_case(rng, disciplined):
                ("FReadline", rng.randrange(1, 4)), ("FReadline", None), ("FTell",)]
         k = rng.randrange(0, len(ops) + 1)
         ops = ops[:k] + pat + ops[k:]
+    if mode in ("r", "r+", "a+", "w+") and rng.random() < 0.35:
+        # a REFUSED seek (negative target through each whence) right after a buffered read that leaves
+        # read-ahead, then more reads / tell / write: the refused call must leave the file untouched
+        neg = rng.choice([("FSeek", -rng.randrange(1, 9), 0), ("FSeek", -rng.randrange(70, 200), 1),
+                          ("FSeek", -rng.randrange(70, 200), 2)])
+        first = rng.choice([("FReadline", None), ("FReadline", rng.randrange(1, 5)), ("FRead", rng.randrange(1, 4))])
+        pat = [first, neg, ("FTell",), rng.choice([("FReadline", None), ("FRead", rng.randrange(1, 6))]), ("FTell",),
+               ("FRead", None)]
+        k = rng.randrange(0, len(ops) + 1)
+        ops = ops[:k] + pat + ops[k:]
     if disciplined:
         ops = discipline(ops, mode)
         if mode != "r" and rng.random() < 0.25:
